@@ -48,3 +48,7 @@ pub broadcast axiom fn axiom_plain_decimal_evaluates_to_itself(t: Seq<char>)
 // R14: i64::to_string -> stub
 #[verifier::external_body]
 pub fn i64_to_string(v: i64) -> (r: String) ensures r@ == int_text(v) { unimplemented!() }
+// R14: `E.parse::<u64>().unwrap_or(0)`
+pub uninterp spec fn parse_u64_or_0_spec(s: Seq<char>) -> u64;
+#[verifier::external_body]
+pub fn parse_u64_or_0(s: &str) -> (r: u64) ensures r == parse_u64_or_0_spec(s@) { unimplemented!() }
